@@ -1,7 +1,7 @@
 PROP = dict(
     modules=["Shangrla.Props.C09", "Shangrla.Props.RiskLimit", "Shangrla.Props.RiskLimitStyle",
              "Shangrla.Props.RiskLimitPlurality", "Shangrla.Props.RiskLimitComparison", "Shangrla.Props.RiskLimitIID", "Shangrla.Props.RiskLimitIRVComparison",
-             "Shangrla.Props.RiskLimitIRV"],
+             "Shangrla.Props.RiskLimitIRV", "Shangrla.Props.RiskLimitComparisonFull"],
     theorems=["Shangrla.C09.pvalues_are_tests", "Shangrla.C09.pvalues_are_tests_pos", "Shangrla.C09.contest_max",
               "Shangrla.C09.audit_max", "Shangrla.C09.audit_max_nan_iff", "Shangrla.C09.audit_max_largest",
               "Shangrla.C09.proved_sticky", "Shangrla.C09.proved_of_le", "Shangrla.C09.dicts_mirror",
@@ -36,7 +36,11 @@ PROP = dict(
               "Shangrla.RiskLimit.irv_assertion_null", "Shangrla.RiskLimit.irv_polling_risk_limit_neb",
               "Shangrla.RiskLimit.irv_polling_risk_limit_nen", "Shangrla.RiskLimit.irv_polling_risk_limit",
               "Shangrla.RiskLimit.irv_wrong_winner_risk_limit", "Shangrla.RiskLimit.raire_wrong_winner_risk_limit",
-              "Shangrla.RiskLimit.example_irv_exact"],
+              "Shangrla.RiskLimit.example_irv_exact",
+              # with C03/C06 on the literal overstatement model: comparison and ONEAudit audits with pools, phantoms
+              # and the style filter (also registered under C03)
+              "Shangrla.RiskLimit.sample_data_model", "Shangrla.RiskLimit.comparison_full_risk_limit",
+              "Shangrla.RiskLimit.example_comparison_full_exact"],
     groups={"status": (1200, 12000), "auditrisk": (60, 600)},
     design_ref="DESIGN.md section 5, C09",
     assumptions=["the statistical test and the data extraction (asn.test.test, Assertion.mvrs_to_data) are parameters of "
